@@ -104,9 +104,9 @@ class CostFunction(FileIOMixin, object):
         self._add_determinant_cost = add_determinant_cost
         if self._add_determinant_cost:
             if self.pointwise:
-                self._arg_names += ["total_error_squared_log_sum"]
+                self._arg_names += [self._ERROR_NAME + "_squared_log_sum"]
             else:
-                self._arg_names += ["total_cov_mat_log_determinant"]
+                self._arg_names += [self._COV_MAT_NAME + "_log_determinant"]
             self._arg_count += 1
         self._fast_math = fast_math
 
